@@ -177,9 +177,11 @@ def run(ck, prog):
     db = prog.body("ide::handlers::diagnostics::exec")
     ck.anchor(db is not None, "diagnostics::exec not found")
     ok = False
-    for i, t in db.calls():
-        if re.search(r"HashMap::<[^>]*>::entry$", Body.callee(t) or ""):
-            o = prov.origins(db, t["args"][1])
+    for dbx in [db] + prog.closures_of(db.path):
+        for i, t in dbx.calls():
+            if not re.search(r"HashMap::<[^>]*>::entry$", Body.callee(t) or ""):
+                continue
+            o = prov.origins(dbx, t["args"][1])
             ok = all(x[0] == "call" and x[3][-2:] == ("location", "file") or (x[0] == "arg" and x[2][-2:] == ("location", "file")) for x in o) and bool(o)
             # the pushed value is the same diagnostic
     ck.ob("R09.3", "bucket-key", ok, "diagnostics::exec buckets each diagnostic under diagnostic.location.file",
